@@ -18,34 +18,68 @@ __CPROVER_requires(1) __CPROVER_assigns(G_close) __CPROVER_ensures(G_close == __
 #include "stubs/base.h"
 #include "stubs/time_prng.h"
 #include "stubs/mem_havoc.h"
-#ifndef VERIF_NATIVE
-ssize_t nondet_lread(void);
-static ssize_t vh_lower_read(coap_session_t *session, uint8_t *data, size_t len) {
-  (void)session;
-  __CPROVER_assert(__CPROVER_w_ok(data, len), "the lower layer is only asked to fill memory that belongs to the header store or to the caller's buffer");
-  ssize_t n = nondet_lread(); __CPROVER_assume(n >= -1 && n <= (ssize_t)len);
-  G_lread++; if (n > 0) { __CPROVER_havoc_slice(data, (size_t)n); G_lread_total += (size_t)n; }
-  return n;
-}
-int coap_handle_event_lkd(coap_context_t *c, coap_event_t e, coap_session_t *s) { (void)c; (void)e; (void)s; G_event++; return 0; }
-void coap_session_disconnected_lkd(coap_session_t *s, coap_nack_reason_t r) { (void)s; (void)r; }
-int coap_netif_available(coap_session_t *s) { (void)s; return 1; }
-#endif
-void harness(void) {
-  coap_session_t *session = malloc(sizeof(*session)); coap_ws_state_t *ws = malloc(sizeof(*ws)); coap_context_t *ctx = malloc(sizeof(*ctx));
-  ASSUME(session && ws && ctx);
-  IN_SCALAR(size_t, datalen); IN_SCALAR(_Bool, all_hdr_in); IN_SCALAR(int, hdr_ofs); IN_SCALAR(size_t, data_ofs); IN_SCALAR(size_t, data_size); IN_SCALAR(_Bool, server);
 #ifndef WSBUF
 #define WSBUF 32
 #endif
+#ifdef VERIF_NATIVE
+static uint8_t *G_hdr_base, *G_buf_base;
+static size_t G_room(const uint8_t *p) {
+  if (p >= G_hdr_base && p <= G_hdr_base + COAP_MAX_FS) return (size_t)(G_hdr_base + COAP_MAX_FS - p);
+  if (p >= G_buf_base && p <= G_buf_base + WSBUF) return (size_t)(G_buf_base + WSBUF - p);
+  return 0;
+}
+#endif
+/* lower layer: delivers any chunk up to the requested length with arbitrary bytes (named inputs, so that a counterexample
+ * carries them); asserts that the requested range belongs to the header store or to the caller's buffer */
+static ssize_t vh_lower_read(coap_session_t *session, uint8_t *data, size_t len) {
+  (void)session;
+#ifndef VERIF_NATIVE
+  __CPROVER_assert(__CPROVER_w_ok(data, len), "the lower layer is only asked to fill memory that belongs to the header store or to the caller's buffer");
+#else
+  if (len > G_room(data)) { printf("REPLAY-FAIL: the lower layer is asked for %zu bytes but only %zu fit\n", len, G_room(data)); vin_fail_count++; return -1; }
+#endif
+  IN_SCALAR(ssize_t, lread); ASSUME(lread >= -1 && lread <= (ssize_t)len);
+  IN_BYTES(lread_data, WSBUF);
+  G_lread++;
+  if (lread > 0) { for (size_t i = 0; i < WSBUF; i++) if (i < (size_t)lread) data[i] = lread_data.b[i]; G_lread_total += (size_t)lread; }
+  return lread;
+}
+#ifndef VERIF_NATIVE
+/* the HTTP handshake stage (ws->up == 0) is outside this unit; cbmc's builtin strlen/vsnprintf are loops that symex would
+ * unwind without end on that (infeasible) path */
+size_t nondet_strlen(void);
+size_t strlen(const char *s) { (void)s; size_t n = nondet_strlen(); __CPROVER_assume(n < 250); return n; }
+int snprintf(char *s, size_t n, const char *f, ...) { (void)f; __CPROVER_assert(__CPROVER_w_ok(s, n), "snprintf buffer writable"); if (n) __CPROVER_havoc_slice(s, n); return 0; }
+#endif
+#ifdef VERIF_NATIVE
+static void vh_lower_close(coap_session_t *s) { (void)s; G_close++; }
+#endif
+int coap_handle_event_lkd(coap_context_t *c, coap_event_t e, coap_session_t *s) { (void)c; (void)e; (void)s; G_event++; return 0; }
+void coap_session_disconnected_lkd(coap_session_t *s, coap_nack_reason_t r) { (void)s; (void)r; }
+int coap_netif_available(coap_session_t *s) { (void)s; return 1; }
+void harness(void) {
+  /* automatic objects (not malloc): the may-fail malloc model makes every field read a case split, and ws->up would not
+   * be a constant for symex, which then explores the HTTP handshake stage with its unbounded library string loops */
+  static coap_session_t session_o; static coap_ws_state_t ws_o; static coap_context_t ctx_o;
+  coap_session_t *session = &session_o; coap_ws_state_t *ws = &ws_o; coap_context_t *ctx = &ctx_o;
+  IN_SCALAR(size_t, datalen); IN_SCALAR(_Bool, all_hdr_in); IN_SCALAR(int, hdr_ofs); IN_SCALAR(size_t, data_ofs); IN_SCALAR(size_t, data_size); IN_SCALAR(_Bool, server);
   ASSUME(datalen == WSBUF);       /* caller buffer of constant capacity (bounded: symbolic offsets into a symbolic-size object do not finish) */
   /* state invariant of the frame reader */
-  if (all_hdr_in) ASSUME(data_size <= datalen && data_ofs < data_size);
+  if (all_hdr_in) ASSUME(data_size <= datalen && data_ofs <= data_size);
   else ASSUME(hdr_ofs >= 0 && hdr_ofs < COAP_MAX_FS);
   IN_BUF_FIXED(data, WSBUF);
+  IN_BYTES(hdr_store, COAP_MAX_FS);            /* header bytes received by earlier calls */
+  for (int i = 0; i < COAP_MAX_FS; i++) ws->rd_header[i] = hdr_store.b[i];
+#ifdef VERIF_NATIVE
+  G_hdr_base = ws->rd_header; G_buf_base = data;
+#endif
   session->ws = ws; session->context = ctx; ws->up = 1; ws->all_hdr_in = all_hdr_in; ws->hdr_ofs = hdr_ofs; ws->data_ofs = data_ofs; ws->data_size = data_size;
   ws->state = server ? COAP_SESSION_TYPE_SERVER : COAP_SESSION_TYPE_CLIENT; ws->sent_close = 0; ws->recv_close = 0;
   coap_layer_read_t keep = vh_lower_read; (void)keep;
+#ifdef VERIF_NATIVE
+  /* natively the real coap_ws_close runs: keep it to its first branch (lower-layer close only, no select() on a socket) */
+  session->state = COAP_SESSION_STATE_NONE; session->sock.lfunc[COAP_LAYER_WS].l_close = vh_lower_close;
+#endif
   session->sock.lfunc[COAP_LAYER_WS].l_read = vh_lower_read;
   G_close = G_lread = G_event = 0; G_lread_total = 0;
   ssize_t r = coap_ws_read(session, data, datalen);
